@@ -29,8 +29,8 @@ open KV
     by AddCdp, AddPrincipal, DepositCollateral, RepayPrincipal, SeizeCollateral, SynchronizeInterest,
     WithdrawCollateral and payoutKeeperLiquidationReward; the only hand-rolled path is
     `SynchronizeInterestForRiskyCDPs` (`calculateCollateralRatio`); the five user operations synchronise
-    interest first; each deposit's share of the debt is rounded with `RoundInt` and not adjusted afterwards
-    (4 assignments in `AuctionCollateral`).  A source edit that adds or removes a path regenerates the table
+    interest first; each deposit's share of the debt is rounded with `RoundInt` and then capped at the remaining
+    debt, the last deposit taking the remainder (7 assignments in `AuctionCollateral` since bfd342e03).  A source edit that adds or removes a path regenerates the table
     and re-opens this obligation. -/
 theorem C04_source_index_paths :
     KV.Gen.cdpBulkRatioCallers = ["SynchronizeInterestForRiskyCDPs"] ∧
@@ -39,7 +39,7 @@ theorem C04_source_index_paths :
       "WithdrawCollateral", "payoutKeeperLiquidationReward", "removeOldCollateralRatioIndex"] ∧
     KV.Gen.cdpSyncCallers = ["AddPrincipal", "AttemptKeeperLiquidation", "DepositCollateral", "RepayPrincipal",
       "WithdrawCollateral"] ∧
-    KV.Gen.cdpDebtShareRounding = "RoundInt" ∧ KV.Gen.cdpAuctionCollateralAssignments = 4 := by decide
+    KV.Gen.cdpDebtShareRounding = "RoundInt" ∧ KV.Gen.cdpAuctionCollateralAssignments = 7 := by decide
 
 /-! ### the invariant holds along every history -/
 
